@@ -16,6 +16,7 @@ from .values import (
 )
 
 REPO = os.environ.get("VF_REPO", "/repo")
+CURRENT = None  # the executor of the path being explored (used by dsl helpers)
 MAX_PATHS = int(os.environ.get("VF_MAX_PATHS", "4000"))
 
 
@@ -243,6 +244,11 @@ class LoopCtx:
     def entry_field(self, obj, name):
         return self.ex.read_field(obj, name, heap=self._entry_heap)
 
+    def use(self, lemma_key, *terms):
+        """Invariant entry that adds (as a hypothesis only) the instance at `terms` of the
+        proven closed lemma registered under `lemma_key` (a "lemma call")."""
+        return ("use:" + lemma_key, self.ex.prop.lemma_instance(lemma_key, *terms))
+
 
 class Exec:
     """Executes one function under one contract context (see contracts.FnCtx)."""
@@ -376,6 +382,10 @@ class Exec:
 
     # ---- running a function -----------------------------------------------------
     def start_path(self):
+        global CURRENT
+        CURRENT = self
+        self.seq_mem_done = set()
+        self.materialized = {}
         self.hyps = []
         self.heap = {}
         self.heap0 = {}
@@ -493,10 +503,14 @@ class Exec:
         v = self.binop(s.op, cur, self.eval(s.value), s)
         self.assign(s.target, v)
 
-    def assign(self, t, v):
+    def assign(self, t, v, mutate=False):
         if isinstance(t, ast.Name):
             v = self.typed_empty(t.id, v)
-            self.env.set(t.id, v)
+            if mutate and self.env.lookup_env(t.id) is not None:
+                # in-place mutation of a container held by a (possibly enclosing) variable
+                self.env.mutate(t.id, v)
+            else:
+                self.env.set(t.id, v)
         elif isinstance(t, (ast.Tuple, ast.List)):
             items = self.unpack_value(v, len(t.elts))
             for e, x in zip(t.elts, items):
@@ -583,16 +597,81 @@ class Exec:
             raise Unsupported(f"loop re-binds {name} which holds a {type(cur).__name__}; give it a declared type")
         raise Unsupported(f"cannot havoc {type(cur).__name__}")
 
+    def materialize(self, seq):
+        """A sequence whose array is a z3 lambda is re-expressed over a fresh array
+        constant m with  forall i. m[i] == body(i)  (lambdas cannot occur in patterns)."""
+        arrs = arrs_of(seq)
+        if not any(z3.is_quantifier(a) for a in arrs):
+            return seq
+        key = tuple(a.get_id() for a in arrs) + (seq.n.get_id(),)
+        if key in self.materialized:
+            return self.materialized[key]
+        out = []
+        for a in arrs:
+            if z3.is_quantifier(a):
+                m = z3.Const(fresh_name("arr"), a.sort())
+                i = z3.Const(fresh_name("ai"), z3.IntSort())
+                self.assume(V.qforall([i], z3.Select(m, i) == z3.Select(a, i), patterns=[z3.Select(m, i)]))
+                out.append(m)
+            else:
+                out.append(a)
+        r = SeqV(seq.shape, out if len(out) > 1 else out[0], seq.n)
+        for attr in ("is_ndarray", "strictly_increasing", "range"):
+            if hasattr(seq, attr):
+                setattr(r, attr, getattr(seq, attr))
+        self.materialized[key] = r
+        return r
+
+    def seq_mem(self, seq, x):
+        """`x in seq` as an atom seq_mem(arr, n, x), *defined* for this (arr, n) by the two
+        skolemised halves of  exists j. 0 <= j < n and arr[j] == x  (assumed once per path).
+        An atom (instead of an inline existential) gives quantified facts a pattern."""
+        seq = self.materialize(seq)
+        (a,) = arrs_of(seq)
+        es = a.sort().range()
+        f = z3.Function(f"seq_mem.{es}", a.sort(), z3.IntSort(), es, z3.BoolSort())
+        w = z3.Function(f"seq_mem.witness.{es}", a.sort(), z3.IntSort(), es, z3.IntSort())
+        key = (a.get_id(), seq.n.get_id())
+        if key not in self.seq_mem_done:
+            self.seq_mem_done.add(key)
+            j = z3.Const(fresh_name("mj"), z3.IntSort())
+            y = z3.Const(fresh_name("my"), es)
+            sel = z3.Select(a, j)
+            body1 = z3.Implies(z3.And(j >= 0, j < seq.n), f(a, seq.n, sel))
+            try:
+                self.assume(V.qforall([j], body1, patterns=[sel]))
+            except z3.Z3Exception:
+                self.assume(V.qforall([j], body1))
+            wy = w(a, seq.n, y)
+            self.assume(V.qforall([y], z3.Implies(f(a, seq.n, y), z3.And(wy >= 0, wy < seq.n, z3.Select(a, wy) == y)), patterns=[f(a, seq.n, y)]))
+        return f(a, seq.n, x)
+
+    def trigger(self, term):
+        """Keep `term` alive in the VC so that quantified hints can match it.  The
+        hypothesis vf_trigger(term) uses a predicate that occurs nowhere else: it can
+        be interpreted as `true` in any model, so it adds no logical content."""
+        t = z3.Function("vf_trigger." + str(term.sort()), term.sort(), z3.BoolSort())
+        self.assume(t(term))
+
     def check_inv(self, inv, L, lid, phase):
         if inv is None:
             return
         for nm, f in inv(L):
+            if nm.startswith("trigger"):
+                self.trigger(f)
+                continue
+            if nm.startswith("use:"):
+                self.assume(f)  # instance of a proven lemma
+                continue
             self.oblige(f"{self.qualname}/{lid}.inv.{nm}.{phase}", f, "invariant." + phase)
 
     def assume_inv(self, inv, L):
         if inv is None:
             return
         for nm, f in inv(L):
+            if nm.startswith("trigger"):
+                self.trigger(f)
+                continue
             self.assume(f)
 
     def frame_check_segment(self, entry_heap, lid):
@@ -605,7 +684,7 @@ class Exec:
             for a, b in zip(arrs, base):
                 if not a.eq(b):
                     r = z3.Const("fr!r", Ref)
-                    self.oblige(f"{self.qualname}/{lid}.frame.{f}", z3.ForAll([r], z3.Implies(self.prop.alloc0(r), z3.Select(a, r) == z3.Select(b, r))), "frame")
+                    self.oblige(f"{self.qualname}/{lid}.frame.{f}", V.qforall([r], z3.Implies(self.prop.alloc0(r), z3.Select(a, r) == z3.Select(b, r))), "frame")
 
     def st_For(self, s):
         seq = self.as_seq(self.eval(s.iter), s)
@@ -881,14 +960,15 @@ class Exec:
         if isinstance(op, ast.Sub):
             return x - y
         if isinstance(op, ast.Mult):
-            return x * y
+            return self.prop.theory.mul(x, y, self.prop.abstract_nl)
         if isinstance(op, (ast.FloorDiv, ast.Mod)):
             if not x.is_int():
                 raise Unsupported("floor division / modulo on reals")
             # Python floor semantics == z3 Euclidean semantics only for a positive divisor
             self.oblige(f"{self.qualname}/divisor_positive@{self.rel_line(node)}", y > 0, "safety", getattr(node, "lineno", None))
             self.assume(y > 0)
-            return x / y if isinstance(op, ast.FloorDiv) else x % y
+            th = self.prop.theory
+            return th.div(x, y, self.prop.abstract_nl) if isinstance(op, ast.FloorDiv) else th.mod(x, y, self.prop.abstract_nl)
         if isinstance(op, ast.RShift) and isinstance(y, z3.IntNumRef):
             return x / (2 ** y.as_long())
         if isinstance(op, ast.LShift) and isinstance(y, z3.IntNumRef):
@@ -900,20 +980,20 @@ class Exec:
     def set_binop(self, op, a, b):
         if not (isinstance(a, SetV) and isinstance(b, SetV)):
             raise Unsupported("set operator with a non-set operand")
-        s = key_sort(a.shape)
-        x = z3.Const(fresh_name("e"), s)
-        A, B = z3.Select(a.arr, x), z3.Select(b.arr, x)
+        from .builtins import define_set
+
+        A, B = (lambda x: z3.Select(a.arr, x)), (lambda x: z3.Select(b.arr, x))
         if isinstance(op, ast.BitOr):
-            body = z3.Or(A, B)
+            body = lambda x: z3.Or(A(x), B(x))
         elif isinstance(op, ast.BitAnd):
-            body = z3.And(A, B)
+            body = lambda x: z3.And(A(x), B(x))
         elif isinstance(op, ast.Sub):
-            body = z3.And(A, z3.Not(B))
+            body = lambda x: z3.And(A(x), z3.Not(B(x)))
         elif isinstance(op, ast.BitXor):
-            body = z3.Xor(A, B)
+            body = lambda x: z3.Xor(A(x), B(x))
         else:
             raise Unsupported("set operator")
-        return SetV(a.shape, z3.Lambda([x], body))
+        return define_set(self, a.shape, body)
 
     def seq_binop(self, op, a, b):
         # numpy array (modelled as a sequence) times / plus a scalar: elementwise
@@ -921,8 +1001,13 @@ class Exec:
             i = z3.Const(fresh_name("i"), z3.IntSort())
             el = z3.Select(a.arr, i)
             y = to_num(b)
-            body = el * y if isinstance(op, ast.Mult) else (el + y if isinstance(op, ast.Add) else el - y)
-            r = SeqV(a.shape, z3.Lambda([i], body), a.n)
+            a = self.materialize(a)
+            el = z3.Select(a.arr, i)
+            body = self.prop.theory.mul(el, y, self.prop.abstract_nl) if isinstance(op, ast.Mult) else (el + y if isinstance(op, ast.Add) else el - y)
+            m = z3.Const(fresh_name("elementwise"), a.arr.sort())
+            # defined array: m[i] == a[i] (op) y, usable from either side (two alternative patterns)
+            self.assume(V.qforall([i], z3.Select(m, i) == body, patterns=[z3.Select(m, i), el]))
+            r = SeqV(a.shape, m, a.n)
             r.is_ndarray = True
             return r
         if isinstance(op, ast.Mult) and isinstance(a, SeqV) and a.n.eq(z3.IntVal(1)):
@@ -1017,6 +1102,8 @@ class Exec:
         if isinstance(container, SeqV):
             if isinstance(container.n, z3.IntNumRef) and container.n.as_long() <= 8:
                 return z3.Or(*[self.equal(container.get(z3.IntVal(i)), x) for i in range(container.n.as_long())])
+            if len(arrs_of(container)) == 1 and is_z3(x):
+                return self.seq_mem(container, coerce(x, arrs_of(container)[0].sort().range()))
             i = z3.Const(fresh_name("i"), z3.IntSort())
             return z3.Exists([i], z3.And(i >= 0, i < container.n, self.equal(container.get(i), x)))
         if isinstance(container, Tup):
